@@ -12,6 +12,10 @@ use serde_json::json;
 pub const N_REPLICA_FIXED: u64 = 24;
 
 pub fn replica_case(ctx: &mut Ctx, id: u64, r: &mut Rng) {
+    replica_case_mode(ctx, id, r, Mode::Crash)
+}
+
+pub fn replica_case_mode(ctx: &mut Ctx, id: u64, r: &mut Rng, mode: Mode) {
     let key_seed = 900 + id;
     let mut pair = match Pair::new(key_seed, CacheMode::None) {
         Ok(p) => p,
@@ -140,7 +144,7 @@ pub fn replica_case(ctx: &mut Ctx, id: u64, r: &mut Rng) {
     };
     let before = ctx.counters.get("crash_points").copied().unwrap_or(0);
     let o = CrashOpts {
-        mode: Mode::Crash,
+        mode,
         mask: CMP_WRITABLE | CMP_HAS,
         get_cap: 64,
         only: None,
@@ -148,7 +152,21 @@ pub fn replica_case(ctx: &mut Ctx, id: u64, r: &mut Rng) {
         prop: ctx.prop,
         continuation: true,
     };
-    crash::enumerate(ctx, &rec, &o, r);
+    // on every recovered replica, honest replication from the (uncrashed) writer must still
+    // complete: upgrade to the writer's length and fetch every block that is missing
+    let mut writer = pair.writer;
+    let mut completions = 0u64;
+    {
+        let mut extra = |s: &mut crate::ops::Sut| -> Result<(), crate::ops::Fail> {
+            let mut rep = repl::Replica { world: s.world.clone(), core: s.core.take(), model: s.model.clone(), cache: CacheMode::None };
+            repl::complete(&mut writer, &mut rep).map_err(|f| crate::ops::fail(format!("replica-completion-after-crash:{}", f.sig), f.detail))?;
+            rep.check(CMP_HAS, 64, "replica completed after crash recovery").map_err(|f| crate::ops::fail(format!("replica-completion-after-crash:{}", f.sig), f.detail))?;
+            completions += 1;
+            Ok(())
+        };
+        crash::enumerate_with(ctx, &rec, &o, r, Some(&mut extra));
+    }
+    ctx.add("replica_completions_after_crash", completions);
     let after = ctx.counters.get("crash_points").copied().unwrap_or(0);
     ctx.add("replica_crash_points", after - before);
     ctx.count("replica_histories");
